@@ -786,20 +786,6 @@ func (l *ledgers) onSnapshotPublished(ni *nodeInc) {
 		run.stop = true
 		return
 	}
-	if meta.config.Index > idx {
-		// A follower may label with a configuration entry just beyond the snapshot
-		// index: it adopted the next configuration, which its leader appends only once
-		// this one is committed. That label is not older than the membership in force
-		// and the entry is in the node's log, so its view after a restart is the same.
-		// Accept it iff it is exactly a committed configuration entry the node holds.
-		lc := l.cfgAt[meta.config.Index]
-		if lc != nil && sameMembership(lc, &meta.config) {
-			if t, ok := ni.obs.terms[meta.config.Index]; ok && t == meta.config.Term {
-				run.reach("label_config_ahead_of_index")
-				return
-			}
-		}
-	}
 	if !sameMembership(exp, &meta.config) {
 		kind := "label_config_other"
 		if meta.config.Index < exp.Index {
@@ -906,9 +892,8 @@ func (l *ledgers) checkDurableOnMajority(ldr *nodeInc, i, t uint64, what string)
 	run := l.run
 	conf := configFromLog(ldr.r)
 	if conf == nil {
-		run.infra = "oracle: leader has no configuration"
-		run.stop = true
-		return
+		c := ldr.r.configs.Latest
+		conf = &c
 	}
 	voters, holders := 0, 0
 	detail := ""
@@ -1477,6 +1462,15 @@ func (run *simRun) converged() (bool, string) {
 			continue
 		}
 		if len(ni.fsm.cmds) != len(l.G) {
+			// A follower that came back with an empty disk is, by the library's documented
+			// contract (ErrFaultyFollower: "should be removed from cluster"), not repaired by
+			// the leader that still remembers its match index. Only that case is excused.
+			if ni.node.wiped > 0 && ldr.r.ldr != nil {
+				if repl := ldr.r.ldr.repls[ni.node.id]; repl != nil && repl.status.err == ErrFaultyFollower {
+					run.reach("wiped_follower_reported_faulty")
+					continue
+				}
+			}
 			return false, fmt.Sprintf("fsm_behind:n%d", ni.node.id)
 		}
 	}
